@@ -90,10 +90,12 @@ Theorem c02_not_readonly_proceeds : forall (R P : Type) alpha cfg (rest : unit -
 Proof. exact not_readonly_proceeds. Qed.
 
 (* an observation of the real endpoint that agrees with the guard model and
-   left the root untouched whenever it refused satisfies the property *)
+   left the root and the staging store untouched whenever it refused satisfies
+   the property *)
 Theorem c02_guard_obs_sound : forall o,
   guard_corr o = true ->
-  (read_only (g_alpha o) (g_mode o) = true -> g_root_unchanged o = true) ->
+  (read_only (g_alpha o) (g_mode o) = true ->
+   g_root_unchanged o = true /\ g_staging_unchanged o = true) ->
   guard_ok o = true.
 Proof. exact guard_obs_sound. Qed.
 
@@ -152,8 +154,10 @@ Example c02_example_guard :
   read_only true (Some OneWaySafe) = true /\ read_only true (Some OneWayReplica) = true
   /\ read_only true None = false /\ read_only false (Some OneWayReplica) = false
   /\ read_only true (Some TwoWayResolved) = false
-  /\ guard_ok (Build_guard_obs true (Some OneWaySafe) true true true) = true
-  /\ guard_ok (Build_guard_obs true (Some OneWaySafe) true false true) = false.
+  /\ guard_ok (Build_guard_obs true (Some OneWaySafe) true true true true) = true
+  /\ guard_ok (Build_guard_obs true (Some OneWaySafe) true false true true) = false
+  /\ guard_ok (Build_guard_obs true (Some OneWaySafe) true true true false) = false
+  /\ guard_ok (Build_guard_obs true (Some OneWayReplica) false true true false) = false.
 Proof. vm_compute. repeat split. Qed.
 
 Print Assumptions c02_oneway_alpha_untouched.
